@@ -34,7 +34,7 @@ from .quant import P, R
 PROP = "C04"
 EPS = zreal(1e-07)
 ASSUME = ["A1 real arithmetic for float32", "group reductions are uninterpreted functions keyed by (kind, tensor shape, axes) of the element expression",
-          "L-mean: mean over a group of elements that are all >= 0 is >= 0; of elements all equal to c is c",
+          "L-mean: mean over a group of elements that are all >= 0 is >= 0; of elements all equal to c is c - proved in lean/Lemmas.lean, re-checked by the thorough tier",
           "tensor extents are concrete in each case (rank and channel position are what the code inspects); K.image_data_format() = channels_last",
           "log/pow: K.pow(2, round(log(s)/log 2)) = 2^rnd(log2 s) (library model)"]
 
